@@ -23,7 +23,7 @@ CHECKS = {
    note="trusts: models/pathedit.py as Python's del; addresses that are neither present nor cleanly missing are don't-care between an error and a silent no-op under ignore_missing (target must be unchanged)",
    technique="deterministic simulation with enumerated crash points, reference-model + snapshot oracle"),
  "C13": dict(level="exploration", engine="histsim", design="4/C13",
-   text="seeded histories of registry operations (register / look-up / memo drop / new Glommer) over per-run class families on default, Glommer and bare registries, with the iteration order of register_op's set of types owned by the simulator; observed handler must belong to a minimal eligible registered type of a reference registry model; each history re-run in 3 variants (registration order, set order, no intermediate look-ups + memo dropped) whose final look-up batteries must agree; fresh default Glommer vs cold module-level glom on a fixed battery.",
+   text="seeded histories of registry operations (register / look-up / memo drop / new Glommer) over per-run class families on default, Glommer and bare registries, with the iteration order of register_op's set of types owned by the simulator; observed handler must belong to a minimal eligible registered type of a reference registry model; each history re-run in 3 variants (registration order, set order, no intermediate look-ups + memo dropped) whose final look-up batteries must agree; a raising look-up after every quiet one; tagged handlers confirmed end-to-end through the public API, also for two children of different classes under one wildcard; fresh default Glommer vs cold module-level glom on a fixed battery.",
    note="trusts: models/registry.py as the reading of 'nearest registered type' (unrelated minimal candidates unranked, only stable); handler identity observed through TargetRegistry.get_handler and confirmed end-to-end for tagged handlers",
    technique="deterministic simulation of registration/look-up histories with a controlled set-iteration-order seam, reference-model oracle + variant stability"),
  "C15": dict(level="exploration", engine="streamsim+schedsim", design="4/C15",
@@ -43,9 +43,9 @@ CHECKS = {
    note="trusts: stub boundary == real boundary (validated on the subprocess sample); stdlib/yaml/toml parsers; 'never executed' is sampled, not decided",
    technique="deterministic simulation of the process boundary with I/O fault injection; differential oracle against the library; input sampling for the no-exec clause"),
  "C20": dict(level="exploration", engine="schedsim", design="4/C20",
-   text="seeded search over schedules (baton-passing threads, switches at collaborator points and at source-line events inside glom) and re-entrant nestings; every task compared with the same recipe run alone in a cold private instance (outcome incl. full trace text, and the task's own collaborator-event log). A clean batch is evidence, not proof.",
-   note="trusts: line-granular (not bytecode-granular) pre-emption; the isolated run of the same code as reference; sys.settrace semantics of CPython 3.12",
-   technique="deterministic simulation: seeded baton scheduler over real threads + line-level pre-emption via sys.settrace, isolated-equivalence oracle"),
+   text="seeded search over schedules (baton-passing threads, switches at collaborator points and at source-line events inside glom) and re-entrant nestings; every task compared with the same recipe run alone in a cold private instance (outcome incl. full trace text, and the task's own collaborator-event log); metamorphic variants (nested call replaced by its recorded result; inner error rendered eagerly vs lazily); locks taken by the code under test are simulated (import threading -> glomsim.simthreading), waiting is a scheduling decision and a wait that cannot end is reported as a liveness violation. A clean batch is evidence, not proof.",
+   note="trusts: line-granular (not bytecode-granular) pre-emption; the isolated run of the same code as reference; sys.settrace semantics of CPython 3.12; only threading.Lock/RLock are simulated (Condition/Semaphore/Event are the real ones)",
+   technique="deterministic simulation: seeded baton scheduler over real threads + line-level pre-emption via sys.settrace + simulated locks with deadlock detection, isolated-equivalence and liveness oracles"),
  "C07": dict(level="exploration", engine="histsim+schedsim", design="4/C07",
    text="seeded histories of top-level calls that share spec objects, Vars objects and scope= dicts, some interleaved by the seeded scheduler or nested re-entrantly; every call's result compared with a lexical-frame reference model evaluated for that call alone (tokens derive from the call's own target, so any leak across calls, siblings or enclosing positions is a mismatch); caller scope mapping and spec graph snapshots before/after.",
    note="trusts: the lexical-frame reference model (glomsim/models/frames.py) as the reading of the statement; where the statement is silent the generator places no readers",
